@@ -207,7 +207,7 @@ func checkC07(tier string) int {
 		params := world.Params{Frankenstein: fr, NumCandidates: 2, NumEthUsers: 3, TopValidators: 5, ChainID: fmt.Sprintf("OneLedger-c07-%d", hseed)}
 		w0, _ := world.New(params)
 		irng := rand.New(rand.NewSource(hseed * 13))
-		cfg := drive.Cfg{Tag: "c07", Seed: hseed, Blocks: blocks, Params: params, Scripts: allScripts, Scout: true, Jumps: true}
+		cfg := drive.Cfg{Tag: "c07", Seed: hseed, Blocks: blocks, Params: params, Scripts: allScripts, Scout: true, Jumps: true, Honest: true}
 		cfg.Specs = []world.NodeSpec{{Name: "lead", Validator: w0.Vals[0], LogLevel: 1}, {Name: "twin", Validator: w0.Vals[0], LogLevel: 1}}
 		var pool [][]byte // transactions seen so far (admitted and rejected) — re-checked later as well
 		var lastRejected [][]byte
